@@ -1214,14 +1214,19 @@ func (s Subtitles) WriteToSSA(o io.Writer) (err error) {
 		var styleNames []string
 		for _, s := range s.Styles {
 			var ss = newSSAStyleFromStyle(*s)
-			format = ss.updateFormat(formatMap, format)
 			styles[ss.name] = ss
 			styleNames = append(styleNames, ss.name)
+		}
+
+		// Loop through styles in a fixed order, otherwise the order of the format's columns depends on the
+		// iteration order of the map when styles don't have the same attributes
+		sort.Strings(styleNames)
+		for _, n := range styleNames {
+			format = styles[n].updateFormat(formatMap, format)
 		}
 		b = append(b, []byte("Format: "+strings.Join(format, ", ")+"\n")...)
 
 		// Styles
-		sort.Strings(styleNames)
 		for _, n := range styleNames {
 			b = append(b, []byte("Style: "+styles[n].string(format)+"\n")...)
 		}
